@@ -118,6 +118,8 @@ fn run(input: &Value) -> CaseOut {
                 "P" => {
                     if let Some(t) = first_poll.take() {
                         hooks::release("http.notify.checked");
+                        // later passages through the point (a handler that checks again) must not block the polls below
+                        hooks::disarm("http.notify.checked");
                         let (f, r) = t.join().unwrap();
                         if r.is_some() { resp = r; } else { fut = Some(f); }
                     } else if resp.is_none() {
